@@ -67,7 +67,7 @@ let handle = function
     let p = build_pub (split_on ',' pub) and o = List.map parse_dop (split_on ',' ops) in
     let ds = c10_diff p o in
     String.concat " " (List.map show_diff ds)
-    ^ (if c10_diff_good p o then " good=1 applies=" ^ (if c10_diff_applies p o then "1" else "0") else " good=0")
+    ^ (if c10_diff_good p o then " good=1 applies=" ^ (if c10_diff_applies_all p o then "1" else "0") else " good=0")
   | "x" :: ms -> let (us, s) = c10_run (parse_msgs ms) in show_upds us ^ " " ^ show_status s
   | ["ap"; z0; us] ->
     (match c10_apply (List.map parse_rr (split_on '.' z0)) (List.map parse_upd (split_on ',' us)) with
